@@ -11,6 +11,8 @@ CONSTANTS
   EnvShift = 0
   SkipLastBond = TRUE
   DropInnerTag = TRUE
+  Targets <- TargetsQuick
+  CrossedBound = FALSE
   StoreByRef = FALSE
   Emit = FALSE
 INVARIANT CapRespected
